@@ -37,6 +37,7 @@ enum Op {
     GetOutpoints,
     Fork,
     Swap,
+    Mod(usize, String, String, String), // get_input(k) -> one TxIn setter -> set_input(k) / add_input / insert_input(j)
     CloneFrom, // tx.clone_from(&other)
     Assign,    // tx = other.clone()
     MemSwap,   // std::mem::swap(&mut tx, &mut other)
@@ -117,6 +118,30 @@ fn parse_op(s: &str) -> Option<Op> {
         ("go", 1) => Op::GetOutpoints,
         ("fk", 1) => Op::Fork,
         ("sw", 1) => Op::Swap,
+        ("mi", 5) => {
+            let k = num::<u64>(f[1])? as usize;
+            if !["vo", "sq", "id", "us", "sa", "lk"].contains(&f[2]) {
+                return None;
+            }
+            match f[2] {
+                "vo" | "sq" => {
+                    num::<u32>(f[3])?;
+                }
+                "sa" => {
+                    num::<u64>(f[3])?;
+                }
+                "id" => {
+                    expand(f[3])?;
+                }
+                _ => {
+                    Script::from_bytes(&expand(f[3])?).ok()?;
+                }
+            }
+            if !(f[4] == "s" || f[4] == "a" || (f[4].starts_with('i') && f[4][1..].parse::<u64>().is_ok())) {
+                return None;
+            }
+            Op::Mod(k, f[2].to_string(), f[3].to_string(), f[4].to_string())
+        }
         ("cf", 1) => Op::CloneFrom,
         ("as", 1) => Op::Assign,
         ("ms", 1) => Op::MemSwap,
@@ -196,6 +221,25 @@ pub fn run(op: &str, args: &[String]) -> Option<String> {
             Op::Swap => {
                 if let Some(o) = other.take() {
                     other = Some(std::mem::replace(&mut tx, o));
+                }
+            }
+            Op::Mod(k, fld, val, dst) => {
+                if let Some(mut i) = tx.get_input(k) {
+                    match fld.as_str() {
+                        "vo" => i.set_vout(val.parse().unwrap()),
+                        "sq" => i.set_sequence(val.parse().unwrap()),
+                        "sa" => i.set_satoshis(val.parse().unwrap()),
+                        "id" => i.set_prev_tx_id(&expand(&val).unwrap()),
+                        "us" => i.set_unlocking_script(&Script::from_bytes(&expand(&val).unwrap()).unwrap()),
+                        _ => i.set_locking_script(&Script::from_bytes(&expand(&val).unwrap()).unwrap()),
+                    }
+                    if dst == "s" {
+                        tx.set_input(k, &i);
+                    } else if dst == "a" {
+                        tx.add_input(&i);
+                    } else {
+                        tx.insert_input(dst[1..].parse::<u64>().unwrap() as usize, &i);
+                    }
                 }
             }
             Op::CloneFrom => {
